@@ -287,7 +287,8 @@ def run(tier, seed, rng):
                 r = comm.allreduce_bucketed(traw(), symmetric=sym, average=True)
                 comm.flush_allreduce_buckets()
             elif fn == 'broadcast':
-                r = comm.broadcast(t, src=W - 1, symmetric=sym)
+                buf = t if rank == W - 1 else torch.arange(n * n, dtype=dt).reshape(n, n) - 3.0      # receivers: arbitrary, NOT symmetric scratch
+                r = comm.broadcast(buf, src=W - 1, symmetric=sym)
             elif fn == 'two_results':
                 # two results of equal shape and dtype but different contents, BOTH still held when they are compared
                 r1 = comm.allreduce(t.clone(), symmetric=sym)          # (the dense allreduce works in place: every call gets its own input)
